@@ -332,6 +332,44 @@ theorem series_dnm_nonneg (g : Geod ℝ) (eps0 sbet1 cbet1 dn1 sbet2 cbet2 dn2 l
     0 ≤ (inverseStart g eps0 sbet1 cbet1 dn1 sbet2 cbet2 dn2 lam12 slam12 clam12).dnm :=
   inverseStart_dnm g eps0 sbet1 cbet1 dn1 sbet2 cbet2 dn2 lam12 slam12 clam12
 
+
+/-! #### reduced latitudes: the ordering guard of fix 48445e6 (F55) -/
+
+/-- **after the guard of lines 242–252 the reduced latitudes are ordered the way `Lambda12` needs**, whatever round-off did to
+    `sincosd` and `Math::norm`: `cbet1, cbet2 > 0`; if `cbet1 < −sbet1` then `cbet1 ≤ cbet2`, else `|sbet2| ≤ −sbet1`
+    (for the canonical `sbet1 ≤ 0`) -/
+theorem reduced_latitudes_ordered (p : Params ℝ) (s1 c1 s2 c2 : ℝ) (ht : 0 < p.tiny) (hs : (reduceLat p s1 c1 s2 c2).sbet1 ≤ 0) :
+    0 < (reduceLat p s1 c1 s2 c2).cbet1 ∧ 0 < (reduceLat p s1 c1 s2 c2).cbet2 ∧
+    ((reduceLat p s1 c1 s2 c2).cbet1 < -(reduceLat p s1 c1 s2 c2).sbet1 →
+      (reduceLat p s1 c1 s2 c2).cbet1 ≤ (reduceLat p s1 c1 s2 c2).cbet2) ∧
+    (¬ (reduceLat p s1 c1 s2 c2).cbet1 < -(reduceLat p s1 c1 s2 c2).sbet1 →
+      |(reduceLat p s1 c1 s2 c2).sbet2| ≤ -(reduceLat p s1 c1 s2 c2).sbet1) :=
+  reduceLat_ordered p s1 c1 s2 c2 ht hs
+
+/-- what `Lambda12` takes the square root of when it forms `calp2` (`Geodesic.cpp` 865–870) -/
+theorem lambda12_calp2 (g : Geod ℝ) (sbet1 cbet1 dn1 sbet2 cbet2 dn2 salp1 calp1 slam120 clam120 : ℝ) :
+    (lambda12 g sbet1 cbet1 dn1 sbet2 cbet2 dn2 salp1 calp1 slam120 clam120).calp2 =
+      if !(RealLike.eqb cbet2 cbet1) || !(RealLike.eqb (RealLike.abs sbet2) (-sbet1)) then
+        RealLike.sqrt (RealLike.sq ((if RealLike.eqb sbet1 (RealLike.ofNat 0) && RealLike.eqb calp1 (RealLike.ofNat 0) then -g.tiny else calp1) * cbet1) +
+          (if RealLike.ltb cbet1 (-sbet1) then (cbet2 - cbet1) * (cbet1 + cbet2) else (sbet1 - sbet2) * (sbet1 + sbet2))) / cbet2
+      else RealLike.abs (if RealLike.eqb sbet1 (RealLike.ofNat 0) && RealLike.eqb calp1 (RealLike.ofNat 0) then -g.tiny else calp1) := rfl
+
+/-- **no square root of a negative number in `Lambda12`** (what F55 was): on the reduced latitudes that `GenInverse` forms, the
+    radicand of `calp2` is non-negative for every trial azimuth -/
+theorem lambda12_radicand_nonneg (p : Params ℝ) (s1 c1 s2 c2 calp1 : ℝ) (ht : 0 < p.tiny) (hs : (reduceLat p s1 c1 s2 c2).sbet1 ≤ 0) :
+    0 ≤ RealLike.sq (calp1 * (reduceLat p s1 c1 s2 c2).cbet1) +
+      (if RealLike.ltb (reduceLat p s1 c1 s2 c2).cbet1 (-(reduceLat p s1 c1 s2 c2).sbet1) then
+         ((reduceLat p s1 c1 s2 c2).cbet2 - (reduceLat p s1 c1 s2 c2).cbet1) * ((reduceLat p s1 c1 s2 c2).cbet1 + (reduceLat p s1 c1 s2 c2).cbet2)
+       else ((reduceLat p s1 c1 s2 c2).sbet1 - (reduceLat p s1 c1 s2 c2).sbet2) * ((reduceLat p s1 c1 s2 c2).sbet1 + (reduceLat p s1 c1 s2 c2).sbet2)) := by
+  have h := reduceLat_ordered p s1 c1 s2 c2 ht hs
+  exact radicand_nonneg _ _ _ _ calp1 h.1 h.2.1 h.2.2.1 h.2.2.2
+
+/-- non-vacuity: a southern point 1 (`sincosd` values `(−1/2, 1/2)`, any scale) has `sbet1 ≤ 0` -/
+example : (reduceLat (⟨1, 0, 1, 0, 0, 0, 1, 1, 1 / 4, 1, 1, 20, 83, 1, false⟩ : Params ℝ) (-1 / 2) (1 / 2) (1 / 4) (1 / 2)).sbet1 ≤ 0 := by
+  show (norm2 ((-1 / 2 : ℝ) * 1) (1 / 2)).1 ≤ 0
+  rw [norm2_fst]
+  apply div_nonpos_of_nonpos_of_nonneg (by norm_num) (Real.sqrt_nonneg _)
+
 /-! #### closed forms of the equatorial and meridional answers, azimuth structure -/
 
 /-- **the equatorial answer** (`Geodesic.cpp` 318–325 followed by the area part and the sign restoration), for every kernel whose
